@@ -19,12 +19,20 @@ THEOREMS = {}
 
 def prove(rep, pid):
     """Re-check the Lean side: build, forbid sorry & co, audit axioms of the property's theorems."""
-    build_lean()
-    grep_forbidden()
     mod, thms = THEOREMS[pid]
-    n, ok, details = audit(mod, thms)
-    rep.add_proof(n, ok, details, "cd lean && lake build && lake env lean <#print axioms of %s>" % mod)
+    build_lean(["dirkmodel"])          # the model driver is needed by every engine: a failure here is fatal
     rep.cov["trusted_base"] = TRUSTED
+    cmd = "cd lean && lake build dirkmodel %s && lake env lean <#print axioms of its theorems>" % mod
+    try:
+        build_lean([mod])
+        grep_forbidden()
+        n, ok, details = audit(mod, thms)
+        rep.add_proof(n, ok, details, cmd)
+    except Broken as b:
+        # a proof obligation (possibly one about the regenerated facts) no longer checks: record it and go on to
+        # the engines, which search for a concrete failing input
+        rep.add_proof(len(thms), 0, {"error": b.detail[-1500:]}, cmd)
+        rep.broken.append(("proof:%s(%s)" % (mod, b.what), b.detail[-3000:], False))
 
 
 def att_line(client, adr, s, t, tag=0, dom=None, faults="-", slot=0):
@@ -491,8 +499,11 @@ def c06(rep, tier, seed, wd, replay):
 
     def nontriv(h):
         return any(op.split()[0] in SIGN_KINDS and (set(hist.states_of(l)) - {"S"}) for op, l in zip(h["ops"], h["impl"]))
+    def extra(keys, rng):
+        # the same through the real gRPC API: the handlers must copy a signature only under SUCCEEDED
+        return c06_faults(keys, rng) + grpc_histories(rng, keys, *tier_sizes(tier, (10, 30), (100, 60)))
     run_hist_property(rep, tier, seed, wd, "C06", SIGN_KINDS + ("export",), opts, sizes, judges=[judge],
-                      nontrivial=nontriv, corpus=False, extra_hist=c06_faults)
+                      nontrivial=nontriv, corpus=False, extra_hist=extra)
     rep.cov["exhaustive"] = False
 
 
@@ -1511,6 +1522,169 @@ def c18(rep, tier, seed, wd, replay):
         rep.broken.append(("correspondence:list(model lister vs lister/standard)", json.dumps({"config": cfg, "ops": ops, "impl": io[:400], "model": mo[:400]}), found))
 
 
+def grpc_histories(rng, keys, n_hist, n_ops, faults=True):
+    hs = engines.gen_histories(rng, keys, n_hist, n_ops, {"faults": faults, "huge": True, "admins": [["127.0.0.1"], ["10.0.0.1"], []]})
+    for h in hs:
+        h["cfg"] = ["viagrpc"] + h["cfg"]
+        h["ops"] = [o for o in h["ops"] if o != "restart"]
+    return hs
+
+
+def c20(rep, tier, seed, wd, replay):
+    import wire
+    from common import run_impl, sh, REPO
+    rep.cov["rule"] = ("(a) the regenerated inventory of panic-capable constructs in the packages client requests reach must be inside the "
+                       "reviewed list (Lean obligation); (b) seeded request histories sent through the REAL gRPC API (TLS, interceptors, "
+                       "handlers) must agree with the Lean handler model position by position; (c) raw protobuf wire bytes (absent / "
+                       "explicitly empty / duplicated fields, byte lengths 0,1,3,4,31,32,33,47,48,49,96,4096, extreme integers, batches of "
+                       "0..17 (thorough 1000), unknown fields, wrong wire types, truncation, garbage; all client-facing services and DKG "
+                       "messages from non-peers) over real gRPC to a real daemon in a child process under a 16 GiB address-space limit; "
+                       "after EVERY message a second client must still be served; non-trivial = message the daemon answered with a response")
+    rep.assumptions += ["allocator size classes (protobuf-go gives short byte fields capacity >= 8), memory exhaustion beyond the address-space limit, C-library robustness on malformed points",
+                        "the inventory is syntactic (explicit panic, unchecked type assertion, constant-bound slicing, make sized by a non-constant); plain indexing is covered by the shape theorems of C06/C08, not by the inventory"]
+    prove(rep, "C20")
+    dh = build_harness(wd)
+    keys = hist.interop_keys(dh)
+    rng = Rng(seed * 37 + 20)
+    found = False
+    # (b)
+    hs = grpc_histories(rng, keys, *tier_sizes(tier, (16, 40), (150, 80)))
+    crashed, err = engines.exec_histories(dh, wd, hs)
+    if crashed:
+        rep.violation("crash-via-grpc", "the instance died while serving a request through the gRPC API", {"stderr": err[-1500:]})
+        found = True
+    first_bad = None
+    for h in hs:
+        rep.count("grpc|" + json.dumps(h["ops"][:2]), True)
+        if h["bad"] and first_bad is None:
+            first_bad = (h, h["bad"][0])
+    rep.cov["grpc_histories"] = len(hs)
+    # (c)
+    msgs = wire.corpus() + wire.gen_messages(rng, tier_sizes(tier, 500, 8000), big=(tier == "thorough"))
+    i = 0
+    restarts = 0
+    total = 0
+    answered = 0
+    while i < len(msgs) and restarts < 6:
+        try:
+            d = wire.Daemon(dh, wd)
+        except Exception as ex_:
+            raise Broken("wire-daemon", str(ex_)[-1500:])
+        chunk = msgs[i:]
+        lines = ["%s %s %s" % (m, c, p.hex() if p else ".") for (m, c, p, tag) in chunk]
+        p_ = __import__("subprocess").run([dh, "wire", d.port, REPO], input="\n".join(lines) + "\n", text=True, stdout=__import__("subprocess").PIPE,
+                                         stderr=__import__("subprocess").PIPE, env=__import__("common").GOENV, timeout=3600)
+        out = p_.stdout.splitlines()
+        dead_at = None
+        for j, o in enumerate(out):
+            total += 1
+            m, c, pl, tag = chunk[j]
+            rep.dist("method", m.split("/")[-1])
+            rep.dist("outcome", o.split()[0].split(":")[0] + ("" if o.startswith("resp") else ":" + o.split()[0].split(":")[1]))
+            rep.count("%s|%s" % (m, pl.hex()[:200]), o.startswith("resp"))
+            answered += o.startswith("resp")
+            if o.endswith("DEAD"):
+                dead_at = j
+                break
+        stderr_tail = d.stop()
+        if dead_at is None and len(out) < len(chunk) and not d.alive():
+            dead_at = len(out)
+        if dead_at is not None:
+            m, c, pl, tag = chunk[dead_at]
+            reason = [l for l in stderr_tail.splitlines() if "fatal error" in l or l.startswith("panic")]
+            rep.violation("daemon-crash-" + tag, "the daemon stopped answering after this message (%s)" % (reason[0] if reason else "no longer alive"),
+                          {"method": m, "client": c, "payload_hex": pl.hex(), "stderr": stderr_tail[-1200:]})
+            found = True
+            i += dead_at + 1
+            restarts += 1
+        else:
+            i = len(msgs)
+    rep.cov["wire_messages"] = total
+    rep.cov["wire_messages_answered_with_a_response"] = answered
+    rep.cov["traces_validated_against_impl"] = total + len(hs)
+    rep.sample({"message": {"method": msgs[10][0], "client": msgs[10][1], "payload_hex": msgs[10][2].hex()[:120]}})
+    if first_bad is not None:
+        h, (i_, op, il, ml) = first_bad
+        rep.broken.append(("correspondence:handlers(model handler layer vs real gRPC API)",
+                           json.dumps({"config": h["cfg"], "ops": h["ops"][:i_ + 1], "impl": il[:300], "model": ml[:300]}), found))
+
+
+DAEMON_PERMS = {"client-test01": ["Wallet 1", "Wallet 3"], "client-test02": ["Wallet 2", "Wallet 3"], "client-test03": ["Wallet 1", "Wallet 2"]}
+DAEMON_PEERS = ["signer-test01", "signer-test02", "signer-test03"]
+
+
+def c19(rep, tier, seed, wd, replay):
+    from common import sh, run_model, REPO
+    rep.cov["rule"] = ("a real daemon (testing/daemon.New) on 127.0.0.1; credentials minted at run time: plaintext, TLS without client "
+                       "certificate, self-signed certificate bearing a permitted name, certificate from another authority bearing a permitted "
+                       "name, expired and not-yet-valid certificates from the right authority, valid certificates of each permitted client, of "
+                       "an unpermitted client and of a peer; EVERY method of EVERY service in the pb descriptors is invoked under each, for two "
+                       "wallets; the Lean transport model (instantiated with the regenerated client-auth mode) predicts refused-at-transport vs "
+                       "served-with-identity; the identity is observed through permission outcomes (client-test01 may use Wallet 1 but not "
+                       "Wallet 2, client-test02 the opposite, ...) and the DKG 'unknown sender' reply; the matrix is enumerated completely")
+    rep.assumptions += ["crypto/tls and crypto/x509 implement the documented client-authentication modes; gRPC dispatches only on an established connection"]
+    prove(rep, "C19")
+    dh = build_harness(wd)
+    d = os.path.join(wd, "tls")
+    os.makedirs(d, exist_ok=True)
+    rc, out, err = sh([dh, "tls", d, REPO], timeout=600)
+    if rc != 0:
+        raise Broken("tls-engine", err[-2000:])
+    lines = [l for l in out.splitlines() if l.strip()]
+    unc = [l for l in lines if l.startswith("UNCOVERED-METHOD")]
+    if unc:
+        rep.broken.append(("tie:rpc-inventory(a registered RPC method is not exercised by the tls engine)", "\n".join(unc), False))
+    # the regenerated mode
+    import re as _re
+    facts = open(os.path.join(VERIF, "lean", "Dirk", "Gen", "Facts.lean")).read()
+    m = _re.search(r'def tlsClientAuth : Option String := some "([^"]+)"', facts)
+    mode = m.group(1) if m else "unknown"
+    rows = [l.split() for l in lines if not l.startswith("UNCOVERED")]
+    kinds = sorted({r_[0] for r_ in rows})
+    pred = dict(zip(kinds, run_model(["tlsmodel %s %s" % (mode, k) for k in kinds])))
+    # what the property demands of each kind, independent of the mode found in the source
+    must = dict(zip(kinds, run_model(["tlsmodel tls.RequireAndVerifyClientCert %s" % k for k in kinds])))
+    found = False
+    first_bad = None
+    for kind, meth, wallet, res in rows:
+        rep.count("%s|%s|%s" % (kind, meth, wallet), True)
+        rep.dist("credential", kind.split(":")[0])
+        rep.dist("outcome", res.split(":")[0])
+        served = res.startswith("served")
+        want = must[kind]
+        if served and want == "refused":
+            rep.violation("served-without-valid-certificate-" + kind.split(":")[0],
+                          "an RPC was served to a caller without a valid certificate from the configured authority",
+                          {"credential": kind, "method": meth, "wallet": wallet, "result": res})
+            found = True
+        if (pred[kind] == "refused") != (not served) and first_bad is None:
+            first_bad = (kind, meth, wallet, res, pred[kind])
+        if served and want.startswith("served"):
+            cn = want.split()[1]
+            w = wallet.replace("_", " ")
+            allowed = w in DAEMON_PERMS.get(cn, [])
+            svc = meth.split("/")[1]
+            ok = True
+            if svc == "v1.DKG":
+                unknown = "unknown_sender" in res
+                ok = unknown == (cn not in DAEMON_PEERS)
+            elif meth.endswith("ListAccounts"):
+                ok = res == ("served:SUCCEEDED:16" if allowed else "served:SUCCEEDED:0") or (allowed and res.startswith("served:SUCCEEDED:1"))
+            elif "WalletManager" in meth or "AccountManager" in meth or "Signer" in meth:
+                ok = ("SUCCEEDED" in res) == allowed or (allowed and "FAILED" in res and "Generate" in meth)
+            if not ok:
+                rep.violation("wrong-identity", "the outcome of a served RPC is not the one the certificate's subject name is entitled to",
+                              {"credential": kind, "method": meth, "wallet": wallet, "result": res, "subject": cn, "allowed": allowed})
+                found = True
+    rep.cov["exhaustive"] = True
+    rep.cov["methods"] = len({r_[1] for r_ in rows})
+    rep.cov["credential_kinds"] = len(kinds)
+    rep.cov["traces_validated_against_impl"] = len(rows)
+    rep.sample({"rows": [" ".join(r_) for r_ in rows[:3]] + [" ".join(r_) for r_ in rows if r_[0] == "valid:client-test01"][:3]})
+    if first_bad is not None:
+        rep.broken.append(("correspondence:tls(transport model with the regenerated client-auth mode vs daemon)", json.dumps(first_bad), found))
+
+
 DKG_DIFF_OPS_C14 = ("iatt", "iprop")
 
 
@@ -1894,13 +2068,18 @@ def c17(rep, tier, seed, wd, replay):
 THEOREMS.update({
     "C12": ("Dirk.Props.C12", ["Dirk.Dkg.C12_share_consistent", "Dirk.Dkg.C12_same_key", "Dirk.Dkg.C12_recover", "Dirk.Dkg.C12_fewer_fail",
                                "Dirk.Dkg.C12_bounds", "Dirk.Dkg.C12_protocol_success"]),
+    "C20": ("Dirk.Props.C20", ["Dirk.C20_sites_covered", "Dirk.C20_domain_slice_safe", "Dirk.C20_alloc_bounded", "Dirk.C20_dkg_non_peer",
+                               "Dirk.C20_handlers_shape", "Dirk.C20_legacy_counterexample"]),
+    "C19": ("Dirk.Props.C19", ["Dirk.C19_policy", "Dirk.C19", "Dirk.facts_tls_clientAuth", "Dirk.facts_tls_minVersion", "Dirk.facts_tls_clientCAs",
+                               "Dirk.facts_tls_creds", "Dirk.facts_services", "Dirk.facts_interceptor", "Dirk.facts_clientName"]),
     "C18": ("Dirk.Props.C18", ["Dirk.C18_sound", "Dirk.C18_complete", "Dirk.C18_fields", "Dirk.C18_dynamic"]),
     "C14": ("Dirk.Props.C14", ["Dirk.C14", "Dirk.C14_proposals", "Dirk.C14_threshold_from_generation"]),
     "C13": ("Dirk.Props.C13", ["Dirk.Dkg.C13_reject", "Dirk.Dkg.C13_no_account", "Dirk.Dkg.C13_legacy_counterexample"]),
     "C16": ("Dirk.Props.C16", ["Dirk.Dkg.C16_refuse_non_peer", "Dirk.Dkg.C16_share_owner"]),
     "C17": ("Dirk.Props.C17", ["Dirk.Dkg.C17_prepare_twice", "Dirk.Dkg.C17_requires_active", "Dirk.Dkg.C17_gone_after",
                                "Dirk.Dkg.C17_commit_complete", "Dirk.Dkg.C17_legacy_counterexample"]),
-    "C03": ("Dirk.Props.C03", ["Dirk.C03_recorded_before_release", "Dirk.C03_refuses_after_crash", "Dirk.C03_released_never_slashable"]),
+    "C03": ("Dirk.Props.C03", ["Dirk.C03_recorded_before_release", "Dirk.C03_refuses_after_crash", "Dirk.C03_released_never_slashable",
+                               "Dirk.facts_sync_writes", "Dirk.facts_action_bytes"]),
     "C04": ("Dirk.Props.C04", ["Dirk.Conc.C04_mutual_exclusion", "Dirk.Conc.C04_commit_atomic", "Dirk.Conc.C04_linearizable",
                                "Dirk.Conc.C04_real_time_order", "Dirk.C04_footprint_attest", "Dirk.C04_trace_is_protocol"]),
     "C15": ("Dirk.Props.C15", ["Dirk.Conc.C15_progress", "Dirk.Conc.C15_measure", "Dirk.Conc.C15_complete", "Dirk.Conc.C15_needs_global"]),
@@ -1924,4 +2103,4 @@ THEOREMS.update({
                                "Dirk.C06_batch_fetch_fault", "Dirk.C06_shape_atts", "Dirk.C06_shape_msign"]),
 })
 
-CHECKS = {"C01": c01, "C02": c02, "C05": c05, "C06": c06, "C07": c07, "C08": c08, "C09": c09, "C10": c10, "C11": c11, "C04": c04, "C15": c15, "C03": c03, "C12": c12, "C13": c13, "C16": c16, "C17": c17, "C14": c14, "C18": c18}
+CHECKS = {"C01": c01, "C02": c02, "C05": c05, "C06": c06, "C07": c07, "C08": c08, "C09": c09, "C10": c10, "C11": c11, "C04": c04, "C15": c15, "C03": c03, "C12": c12, "C13": c13, "C16": c16, "C17": c17, "C14": c14, "C18": c18, "C19": c19, "C20": c20}
